@@ -247,4 +247,52 @@ def step (s : Sys) : Ev → Sys
 
 def run (s : Sys) (evs : List Ev) : Sys := evs.foldl step s
 
+/-! ## Part A' — the window at the end of a worker run
+
+`handleNodeLeftEvent` (leader, relocation enabled) starts a relocation of `addr` from the stored
+snapshot exactly when the store still holds a snapshot for `addr` AND no job is registered.
+`relocationWorker.finish` performs two calls; a duplicate NodeLeft may be handled before, between and
+after them.  `finishOrder` is the order in the code (checked against the source on every run by
+the FACTS entry of tools/props/c33.py and behaviourally by the `nl` differential). -/
+
+structure Dep where
+  snapshot : Bool      -- the store holds the departed node's snapshot
+  job : Bool           -- a relocation job is registered for the address
+  started : Nat        -- relocations started (RelocationStarted events) for this departure
+deriving DecidableEq, Repr
+
+inductive FinishCall where
+  | deletePeerState
+  | endRelocation
+deriving DecidableEq, Repr
+
+inductive Act where
+  | nodeLeft                 -- a (duplicate) NodeLeft handled by the leader
+  | call (c : FinishCall)    -- the worker performs the next call of `finish`
+deriving DecidableEq, Repr
+
+/-- snapshot path of `handleNodeLeftEvent` -/
+def nodeLeftSnap (d : Dep) : Dep :=
+  if d.snapshot && !d.job then { d with job := true, started := d.started + 1 } else d
+
+def applyCall (d : Dep) : FinishCall → Dep
+  | .deletePeerState => { d with snapshot := false }
+  | .endRelocation => { d with job := false }
+
+def act (d : Dep) : Act → Dep
+  | .nodeLeft => nodeLeftSnap d
+  | .call c => applyCall d c
+
+def runActs (d : Dep) (l : List Act) : Dep := l.foldl act d
+
+/-- the order of the two calls in `relocationWorker.finish` (and in `relocator.abortRelocation`) -/
+def finishOrder : List FinishCall := [.deletePeerState, .endRelocation]
+
+/-- `a`, `b`, `c` duplicate NodeLefts before, between and after the calls given in `order` -/
+def finishWith (order : List FinishCall) (a b c : Nat) : List Act :=
+  match order with
+  | [x, y] => List.replicate a Act.nodeLeft ++ [Act.call x] ++ List.replicate b Act.nodeLeft ++ [Act.call y]
+      ++ List.replicate c Act.nodeLeft
+  | _ => []
+
 end GoaktVerif.Model.C33
